@@ -486,10 +486,21 @@ def solve_many(obls, budget, thorough):
         order = getattr(ob, "order", None) or getattr(getattr(ob, "contract", None), "order", None) or ("z3", "cvc5")
         to = getattr(ob, "timeout", None) or getattr(getattr(ob, "contract", None), "timeout", None) or budget
         both = thorough and ob.expect == "unsat" and len(order) > 1
+        if ob.expect == "sat" and i not in second_pass:
+            to = min(to, 8)  # vacuity guards: one satisfiable instance per group is enough; the full budget only if none is found
         return i, solve.solve_text(texts[i], to, order, both)
 
+    second_pass = set()
     with concurrent.futures.ThreadPoolExecutor(max_workers=min(16, os.cpu_count() or 4)) as pool:
         for i, r in pool.map(job, range(len(obls))):
+            out[i] = r
+        sat_groups = {}
+        for i, ob in enumerate(obls):
+            if ob.expect == "sat":
+                sat_groups.setdefault(group_name(ob), []).append(i)
+        redo = [i for g, idxs in sat_groups.items() if not any(out[i].status == "sat" for i in idxs) for i in idxs]
+        second_pass.update(redo)
+        for i, r in pool.map(job, redo):
             out[i] = r
     dump = os.environ.get("PYVC_DUMP")
     if dump:
